@@ -113,18 +113,18 @@ Section BestCase.
     unfold spec_best_case, spec_length_hav. ring.
   Qed.
 
-  (* BEV: the best-case energy is recorded labelled with the BATTERY unit and drives the charge
-     unconverted; when the rate's energy unit is the battery unit this is ideal rate * distance *)
+  (* BEV / PHEV (after fix 0840f02): recorded in the rate's energy unit (converted into the feature's),
+     the charge falls by the energy converted into the battery unit *)
   Lemma best_case_state_bev : forall (r : pmr QN) (cap st : Q) bu fe (s_init hav_m e0 s t d : Q), 0 < cap ->
     exists e1 s1 : Q,
       best_case_energy_state QN (BEV r cap st bu) (convert_distance QN Meters (sv_du sv) hav_m) (sv_du sv)
                              [e0; s; t; d] (sm_bev ftu fdu s_init fe)
       = Ok [e1; s1; t; d]
-      /\ e1 == e0 + spec_best_case sv r hav_m * k_energy bu fe
-      /\ s1 == spec_soc s (spec_best_case sv r hav_m) cap.
+      /\ e1 == e0 + spec_best_case sv r hav_m * k_energy (energy_rate_energy_unit (pm_eru r)) fe
+      /\ s1 == spec_soc s (spec_best_case sv r hav_m * k_energy (energy_rate_energy_unit (pm_eru r)) bu) cap.
   Proof.
     intros r cap st bu fe s_init hav_m e0 s t d Hc.
-    unfold best_case_energy_state, best_case_energy, create_energy. cbn [bind fst].
+    unfold best_case_energy_state, best_case_energy, create_energy. cbn [bind fst snd].
     erewrite (add_energy_at (sm_bev ftu fdu s_init fe) _ n_electric 0 eq_refl); [|reflexivity..]. cbn [bind set_nth].
     erewrite (update_soc_at (sm_bev ftu fdu s_init fe) _ n_soc 1 eq_refl); [|reflexivity..]. cbn [set_nth].
     eexists. eexists. split; [reflexivity|].
@@ -133,7 +133,8 @@ Section BestCase.
     { cbn [mul QN]. rewrite !convert_distance_factor. unfold spec_best_case, spec_length_hav. ring. }
     split.
     - rewrite acc_energy. rewrite E. reflexivity.
-    - rewrite (soc_update_spec s _ cap Hc). unfold spec_soc. apply clampQ_proper. rewrite E. reflexivity.
+    - rewrite (soc_update_spec s _ cap Hc). unfold spec_soc. apply clampQ_proper.
+      rewrite convert_energy_factor. rewrite E. reflexivity.
   Qed.
 
   Lemma best_case_state_phev : forall (cs cd : pmr QN) (cap st : Q) bu fe fl (s_init hav_m e0 s l0 t d : Q), 0 < cap ->
@@ -141,11 +142,11 @@ Section BestCase.
       best_case_energy_state QN (PHEV cs cd cap st bu) (convert_distance QN Meters (sv_du sv) hav_m) (sv_du sv)
                              [e0; s; l0; t; d] (sm_phev ftu fdu s_init fe fl)
       = Ok [e1; s1; l0; t; d]
-      /\ e1 == e0 + spec_best_case sv cd hav_m * k_energy bu fe
-      /\ s1 == spec_soc s (spec_best_case sv cd hav_m) cap.
+      /\ e1 == e0 + spec_best_case sv cd hav_m * k_energy (energy_rate_energy_unit (pm_eru cd)) fe
+      /\ s1 == spec_soc s (spec_best_case sv cd hav_m * k_energy (energy_rate_energy_unit (pm_eru cd)) bu) cap.
   Proof.
     intros cs cd cap st bu fe fl s_init hav_m e0 s l0 t d Hc.
-    unfold best_case_energy_state, best_case_energy, create_energy. cbn [bind fst].
+    unfold best_case_energy_state, best_case_energy, create_energy. cbn [bind fst snd].
     erewrite (add_energy_at (sm_phev ftu fdu s_init fe fl) _ n_electric 0 eq_refl); [|reflexivity..]. cbn [bind set_nth].
     erewrite (update_soc_at (sm_phev ftu fdu s_init fe fl) _ n_soc 1 eq_refl); [|reflexivity..]. cbn [set_nth].
     eexists. eexists. split; [reflexivity|].
@@ -154,7 +155,8 @@ Section BestCase.
     { cbn [mul QN]. rewrite !convert_distance_factor. unfold spec_best_case, spec_length_hav. ring. }
     split.
     - rewrite acc_energy. rewrite E. reflexivity.
-    - rewrite (soc_update_spec s _ cap Hc). unfold spec_soc. apply clampQ_proper. rewrite E. reflexivity.
+    - rewrite (soc_update_spec s _ cap Hc). unfold spec_soc. apply clampQ_proper.
+      rewrite convert_energy_factor. rewrite E. reflexivity.
   Qed.
 End BestCase.
 
